@@ -105,6 +105,9 @@ class Feat:
             self.expr(e.lhs, control)
             self.expr(e.rhs, control)
         elif isinstance(e, LoopIR.USub):
+            if isinstance(e.arg, LoopIR.USub) or (isinstance(e.arg, LoopIR.Const) and not isinstance(e.arg.val, bool)
+                                                   and e.arg.val < 0):
+                self.tags.add("negneg")
             self.expr(e.arg, control)
         elif isinstance(e, LoopIR.Read):
             for i in e.idx:
@@ -625,6 +628,17 @@ def foo(n: size, m: size, x: R[n, m], y: [R][m], acc: R):
         acc += x[2, 0]
     else:
         acc += x[1, m - 1]
+''',
+    # nested unary minus must not become C's pre-decrement operator (reported by C15 as well: invalid / wrong C)
+    "nested_unary_minus": '''
+@proc
+def foo(n: size, x: R[4], y: R[4]):
+    assert n <= 4
+    y[0] = -(-(y[1])) + x[0]
+    if -(-n) < 3:
+        y[2] = 1.0
+    for i in seq(0, n):
+        y[i] += 2.0
 ''',
     "instr_calls": '''
 @instr("for (int q_ = 0; q_ < {n}; q_++) (&{dst_data})[q_ * {dst}.strides[0]] += 2.0f * {src}.data[({n} - 1 - q_) * {src}.strides[0]];")
